@@ -37,6 +37,7 @@ pub fn run(ctx: &mut Ctx, prop: &str) {
         }
         "C19" => all(ctx, prop, c19_case),
         "C13" => all(ctx, prop, c13_case),
+        "C17" => all(ctx, prop, c17_case),
         _ => {}
     }
 }
@@ -167,6 +168,9 @@ fn c11_case(ctx: &mut Ctx, id: &str, rng: &mut Rng, spec: &Spec, w: Which) {
 }
 fn c19_case(ctx: &mut Ctx, id: &str, rng: &mut Rng, spec: &Spec, w: Which) {
     dispatch!(w, c19, ctx, id, rng, spec)
+}
+fn c17_case(ctx: &mut Ctx, id: &str, rng: &mut Rng, spec: &Spec, w: Which) {
+    dispatch!(w, c17_points, ctx, id, rng, spec)
 }
 fn c13_case(ctx: &mut Ctx, id: &str, rng: &mut Rng, spec: &Spec, w: Which) {
     dispatch!(w, c13_columns, ctx, id, rng, spec)
@@ -898,6 +902,8 @@ fn c03<S: Lc>(ctx: &mut Ctx, id: &str, rng: &mut Rng, spec: &Spec) {
     }
     // (i') the forgery D5 allowed: fabricated columns consistent with E(v'), honest paths
     d5_forgery::<S>(ctx, id, rng, spec, run);
+    // (i'') a point with the wrong number of coordinates (D23)
+    wrong_point_length_forgery::<S>(ctx, id, rng, spec, run);
     // (ii) the stretched-vector forgery of D6 (Reed–Solomon encoders)
     if S::NAME != Bd::NAME {
         d6_forgery::<S>(ctx, id, rng, spec, run);
@@ -1496,5 +1502,92 @@ fn metadata_tamper<S: Lc>(ctx: &mut Ctx, id: &str, rng: &mut Rng, spec: &Spec, r
         let cid = format!("{}/meta-{}/true-value", id, tag);
         let _ = decide::<S>(ctx, &cid, &run.pp, &comms, &run.point, &run.values, &run.proof, &run.pre);
         ctx.rep.case(&format!("{} tampered {}", describe(run), tag), Some(format!("{}/meta/{}/{:?}/{}", S::NAME, tag, spec.sizes, spec.wf)));
+    }
+}
+
+fn c17_points<S: Lc>(ctx: &mut Ctx, id: &str, rng: &mut Rng, spec: &Spec) {
+    if S::KIND != 1 {
+        return;
+    }
+    let c = match new_case::<S>(ctx, id, rng, spec) {
+        Some(c) => c,
+        None => return,
+    };
+    wrong_point_length_forgery::<S>(ctx, id, rng, spec, &c.run);
+}
+
+/// D23: the multilinear verifiers never compared the point with the committed matrix, and their inner products
+/// truncate to the shorter operand.  For a point with one coordinate more or fewer than the polynomial has
+/// variables, `v' = Σ_{i<k} b'[i]·row_i` (`b'` the row tensor of that point, `k = min(|b'|, n_rows)`), honest
+/// columns and paths at the positions of the new transcript, and the claimed value `<v', a'>` satisfy every
+/// test the old verifier made.  A request with the wrong number of variables must never verify.
+fn wrong_point_length_forgery<S: Lc>(ctx: &mut Ctx, id: &str, rng: &mut Rng, spec: &Spec, run: &Run<S>) {
+    if S::KIND != 1 {
+        return;
+    }
+    let c = &run.comms[0];
+    let st = &run.states[0];
+    let p0 = &run.proof[0];
+    let (n, m) = (c.metadata.n_rows, c.metadata.n_cols);
+    for longer in [true, false] {
+        let cid = format!("{}/wrong-point-length-{}", id, if longer { "longer" } else { "shorter" });
+        let mut pt = run.point.clone();
+        if longer {
+            pt.push(Fr::rand(rng));
+        } else {
+            if pt.len() < 2 {
+                continue;
+            }
+            pt.pop();
+        }
+        let (a2, b2) = match tensor::<S>(&pt, m, n) {
+            Ok(x) => x,
+            Err(_) => {
+                ctx.rep.count(&format!("{}/wrong-point-length-tensor-aborts", S::NAME));
+                continue;
+            }
+        };
+        let k = b2.len().min(n);
+        let mut v2 = vec![Fr::zero(); m];
+        for i in 0..k {
+            for j in 0..m {
+                v2[j] += b2[i] * st.mat.entries[i][j];
+            }
+        }
+        let value2: Fr = v2.iter().zip(&a2).map(|(x, y)| *x * *y).sum();
+        let (_r, idx, _) = match transcript::<S>(&run.pp, c, &pt, &v2, &p0.well_formedness, &run.pre) {
+            Some(x) => x,
+            None => continue,
+        };
+        let tree = tree_of(&st.leaves);
+        let mut cols = vec![];
+        let mut paths = vec![];
+        let mut ok = true;
+        for q in &idx {
+            if *q >= c.metadata.n_ext_cols {
+                ok = false;
+                break;
+            }
+            cols.push((0..n).map(|i| st.ext_mat.entries[i][*q]).collect::<Vec<Fr>>());
+            match tree.generate_proof(*q) {
+                Ok(p) => paths.push(p),
+                Err(_) => {
+                    ok = false;
+                    break;
+                }
+            }
+        }
+        if !ok {
+            continue;
+        }
+        let proof = vec![MProof { opening: MProofSingle { paths, v: v2.clone(), columns: cols }, well_formedness: p0.well_formedness.clone() }];
+        let out = decide::<S>(ctx, &cid, &run.pp, &run.comms[..1], &pt, &[value2], &proof, &run.pre);
+        if out.accepted() {
+            ctx.rep.expect_fail(&cid, &format!("lincode/wrong-point-length-accepted/{}", S::NAME),
+                &format!("a proof assembled from honest openings verified at a point with {} coordinates against a commitment to a polynomial in {} variables", pt.len(), run.point.len()),
+                replay::<S>(&cid, ctx.seed, spec, &describe(run)));
+        }
+        ctx.rep.count(&format!("{}/wrong-point-length", S::NAME));
+        ctx.rep.case(&format!("{} wrong point length {} -> {:?}", describe(run), pt.len(), out), Some(format!("{}/wrong-point-length/{:?}/{}/{}", S::NAME, spec.sizes, spec.wf, longer)));
     }
 }
